@@ -22,6 +22,11 @@ BOOKS = {
     'one-failed-twice': [(H1, 1, 2, 30)],
     'one-failed-thrice': [(H1, 1, 3, 30), (H2, 1, 0, None)],
 }
+# non-initial start states reached by a fixed event prefix (not counted in the depth bound)
+PREFIX_EVENTS = {
+    'two-greeted': ('two-hosts', [('tick', 0), ('establish', 0), ('establish', 1), ('hello', 0, 1, False), ('hello', 1, 1, False)]),
+    'one-greeted-one-incoming': ('one', [('tick', 0), ('establish', 0), ('hello', 0, 1, False), ('incoming', H2, 7), ('hello', 1, 1, False)]),
+}
 ANNOUNCE = {
     'none': [],
     'h1:1': [(H1, 1)],
@@ -60,6 +65,14 @@ def setup_worker():
 
 class World:
     def __init__(self, book):
+        prefix = []
+        if book in PREFIX_EVENTS:
+            book, prefix = PREFIX_EVENTS[book]
+        self._init(book)
+        for ev in prefix:
+            self.apply(ev)
+
+    def _init(self, book):
         from skepticoin.networking.disk_interface import DiskInterface
         from skepticoin.networking.remote_peer import load_peers_from_list
         W = setup_worker()
@@ -363,14 +376,17 @@ def run(ctx):
     depth = 5 if ctx.quick else 6
     seen = set()
     frontier = []
-    for book in BOOKS:
+    for book in list(BOOKS) + list(PREFIX_EVENTS):
         w = execute(book, ())
         seen.add((book, w.canon()))
         frontier.append((book, ()))
     stats = {'states': len(frontier), 'transitions': 0, 'dials': 0, 'file_checks': 0, 'snapshots': 0}
     kinds = {}
     sample = None
+    pdepth = 3 if ctx.quick else 4          # depth bound for the start states reached by an event prefix
     for d in range(depth):
+        if d >= pdepth:
+            frontier = [f for f in frontier if f[0] not in PREFIX_EVENTS]
         if ctx.seed:
             import random
             random.Random(ctx.seed + d).shuffle(frontier)
@@ -403,7 +419,7 @@ def run(ctx):
         'traces_validated_against_impl': stats['transitions'],
         'samples': [sample or [], ['one', ['tick', 0], ['refuse', 0], ['tick', 10], ['tick', 10]]],
         'event_kinds': kinds, 'dials_monitored': stats['dials'], 'peer_file_checks': stats['file_checks'] + n3,
-        'crash_snapshots_checked': stats['snapshots'] + snaps3, 'backoff_table_cases': nb, 'depth': depth, 'exhaustive': True,
+        'crash_snapshots_checked': stats['snapshots'] + snaps3, 'backoff_table_cases': nb, 'depth': depth, 'depth_from_prefix_states': pdepth, 'exhaustive': True,
         'rule': "BFS to depth %d from 4 initial peer books over events {tick(+0,9,10,11,20,40,1800 s), dial established/refused, "
                 "incoming connection (2 hosts x 2 ephemeral ports, also duplicates), greeting (claimed port 1/2, own/other nonce, "
                 "repeated), peers message (5 announcement sets incl. IPv6-only), remote close, garbage, OS error}, <= 3 open "
